@@ -102,8 +102,10 @@ impl<T: IoBuf> Slice<Slice<T>> {
 
         let new_begin = large_begin + self.begin;
         let new_end = match (self.end, large_end) {
-            (Some(small_end), Some(large_end)) => Some((large_begin + small_end).min(large_end)),
-            (Some(small_end), None) => Some(large_begin + small_end),
+            (Some(small_end), Some(large_end)) => {
+                Some(large_begin.saturating_add(small_end).min(large_end))
+            }
+            (Some(small_end), None) => Some(large_begin.saturating_add(small_end)),
             (None, large_end) => large_end,
         };
 
